@@ -134,6 +134,7 @@ func (c *Ctx) numeralTheory() {
 		return
 	}
 	c.declared["numeral-theory"] = true
+	c.declared["model-note:numerals"] = true
 	for _, d := range []string{"uf_isnum_1 (Int) Int", "uf_numval_1 (Int) Int", "uf_utext_3 (Int Int Int) Int", "uf_stext_3 (Int Int Int) Int", "uf_dchar_2 (Int Int) Int", "strbyte (Int Int) Int", "strlen (Int) Int"} {
 		name := strings.SplitN(d, " ", 2)[0]
 		if !c.declared[name] {
@@ -161,6 +162,7 @@ func (c *Ctx) dcharAxiom() {
 		return
 	}
 	c.declared["dchar-axiom"] = true
+	c.declared["model-note:numerals"] = true
 	if !c.declared["uf_dchar_2"] {
 		c.declared["uf_dchar_2"] = true
 		c.decls = append(c.decls, "(declare-fun uf_dchar_2 (Int Int) Int)")
